@@ -310,5 +310,9 @@ def oracle_c20(w, ref, res, case):
             nloaded = len(set(tuple(t) for t in w.facts.get(rel, [])))
             known_shape = rel in w.meta.get("input_derived_nonrec", []) and counts[rel] == len(lines) - nloaded
             cls = "profile-count-input-derived:" if known_shape else "profile-count:"
+            if rel in w.meta.get("limitsize_chain", []) and counts[rel] == len(lines) + 1:
+                # second recorded defect: a .limitsize relation that grows by one tuple per iteration is over-reported by exactly
+                # the one tuple of the last @new relation, which is counted but never merged
+                cls = "profile-count-limitsize:"
             f.append((cls + rel, "profile reports %d tuples for %s, the relation holds %d" % (counts[rel], rel, len(lines))))
     return f
